@@ -57,10 +57,11 @@ def random_workload(ctx, red):
         n = rng.randint(2, 14)
     t = 0
     arr = []
+    zero = rng.random() < 0.2             # some workloads contain zero-size packets (legal: they take a place, no bytes, no time)
     for _ in range(n):
         t += rng.choice([0, 0, 0, 1, 1, 2, 3, 5, 8])
         d = rng.choice([(0, 1), (1, 8), (1, 4), (3, 8), (1, 2), (5, 8), (3, 4), (1, 1)])
-        arr.append({"t": t, "sz": rng.choice([1, 1, 2, 3, 4, 6]), "un": d[0], "ud": d[1]})
+        arr.append({"t": t, "sz": 0 if (zero and rng.random() < 0.3) else rng.choice([1, 1, 2, 3, 4, 6]), "un": d[0], "ud": d[1]})
     return {"cfg": cfg, "arr": arr}
 
 
